@@ -177,3 +177,31 @@ def preprocessor_exit_obligations(prop="C20"):
         r.detail = "a file pcpp gives up on (one that includes itself, say) ends the whole run"
         r.replay = c20.preprocessor_exit_case()
     return [r]
+
+
+def reader_progress_obligation(prop="C20", replay=None):
+    """FORD never hangs on a file: every iteration of the statement-assembly loop of FortranReader.__next__ (`while not done:`) takes one line from the underlying line iterator,
+    `line = next(self.reader)`, as a direct statement of the loop body - not under a `try` whose handler could swallow the StopIteration of an exhausted file and go round
+    again.  The iterator is finite (lines of a file / of the preprocessor's output), so the loop ends after at most that many iterations or leaves with StopIteration."""
+    import ast
+    from harness import loader
+    from harness.core import OR, PROVED, REFUTED, UNKNOWN
+    oid = f"{prop}.S.FortranReader.__next__.every_iteration_consumes_a_line_or_stops"
+    fn = loader.find_def("ford.reader", "FortranReader.__next__")
+    loops = [n for n in ast.walk(fn) if isinstance(n, ast.While) and ast.unparse(n.test) == "not done"]
+    if len(loops) != 1:
+        return [OR(id=oid, status=UNKNOWN, kind="S", target="ford.reader.FortranReader.__next__", detail=f"`while not done` loops: {len(loops)}")]
+    l = loops[0]
+    direct = [st for st in l.body if isinstance(st, ast.Assign) and ast.unparse(st.value) == "next(self.reader)"]
+    # nothing before it in the body can `continue` without having consumed a line
+    first = bool(direct) and l.body.index(direct[0]) == 0
+    guarded = [t for t in ast.walk(l) if isinstance(t, ast.Try) and any("next(self.reader)" in ast.unparse(b) for b in t.body)]
+    ok = first and not guarded
+    r = OR(id=oid, status=PROVED if ok else REFUTED, kind="S", role="variant", backend="ast", target="ford.reader.FortranReader.__next__",
+           desc="`while not done:` starts every iteration with `line = next(self.reader)` outside any try statement: the number of lines left is a variant of the loop")
+    if not ok:
+        r.witness = {"first_statement": ast.unparse(l.body[0])[:80], "under_try": bool(guarded)}
+        r.detail = "an iteration can complete without consuming a line: at the end of a file the loop may feed itself forever"
+        if replay:
+            r.replay = replay()
+    return [r]
